@@ -17,6 +17,8 @@ ASSUMPTIONS = [
     "state = schedule lists, tracking vectors, answers of the state queries, and the public state of History, UnscheduledOperations, "
     "MakespanReward, IdleTimeReward, all seven feature observers, a call-recording observer, a ResidualGraphUpdater (disjunctive graph) "
     "and, in env mode, the observation returned by get_observation()",
+    "bare mode: the same injections on a dispatcher without observers and without any query between the requests (only the schedule "
+    "lists and tracking vectors are read), so that a value cached by a rejected request cannot be refreshed before the next valid one",
     "any Exception subclass counts as 'raises'",
 ]
 STUBS = ["max", "min", "int (dispatcher module only)", "np facade (feature observers, instance arrays)"]
@@ -39,6 +41,9 @@ def subspaces(tier):
     s4, s3 = D.shapes(3, 4), D.shapes(3, 3)
     out += C.structure_subspaces(s4, 2, False, mode="dispatcher")
     out += C.structure_subspaces(s3, 2, True, only_flexible=True, mode="dispatcher")
+    out += C.structure_subspaces(s4, 2, False, mode="bare")
+    out += C.structure_subspaces(s3, 2, True, only_flexible=True, mode="bare")
+    out += [sp for sp in C.structure_subspaces(s3, 3, False, canonical=True, mode="bare") if max(m[0] for m in sp["machines"]) == 2]
     out += C.structure_subspaces(s3, 2, False, mode="env")
     out += C.structure_subspaces(s3, 2, True, only_flexible=True, mode="env")
     if tier == "thorough":
@@ -49,7 +54,7 @@ def subspaces(tier):
 
 
 def cost(sp):
-    return C.cost(sp) * (3 if sp["mode"] == "env" else 1)
+    return C.cost(sp) * (3 if sp["mode"] == "env" else 0.3 if sp["mode"] == "bare" else 1)
 
 
 def make_recorder():
@@ -145,12 +150,19 @@ def harness(eng, sp):
     if sp["mode"] == "env":
         return env_harness(eng, sp, inst, desc)
     A, B = Dispatcher(inst), Dispatcher(inst)
-    obsA, obsB = attach_observers(A, inst), attach_observers(B, inst)
+    bare = sp["mode"] == "bare"
+    if bare:
+        # no observers and no queries at all between the requests: nothing may refresh a cached value
+        obsA = obsB = []
+        snap = lambda d, o: {"dispatcher": D.snap_dispatcher(d, queries=False)}
+    else:
+        obsA, obsB = attach_observers(A, inst), attach_observers(B, inst)
+        snap = full_snapshot
     spec = Spec(desc)
     for k in range(desc.n_ops + 1):
         eng.reachable("state")
-        before = full_snapshot(A, obsA)
-        full_snapshot(B, obsB)
+        before = snap(A, obsA)
+        snap(B, obsB)
         for kind, o, m in invalid_dispatches(desc, spec):
             lop = D.op_by_id(inst, o)
             raised = False
@@ -165,7 +177,7 @@ def harness(eng, sp):
                 raised = True
             if not raised:
                 eng.fail(f"C09/dispatch/{kind}/accepted", f"op {o} machine {m} after {spec.history}")
-            after = full_snapshot(A, obsA)
+            after = snap(A, obsA)
             D.prove_snap_equal(eng, before, after, f"C09/dispatch/{kind}/state-changed", f"op {o} machine {m} after {spec.history}:")
         if k == desc.n_ops:
             break
@@ -182,7 +194,7 @@ def harness(eng, sp):
         spec.apply(op, m)
         eng.reachable("transition")
         eng.observe("starts", [s for l in D.lib_lists(A.schedule) for (_, s, _) in l])
-        D.prove_snap_equal(eng, full_snapshot(A, obsA), full_snapshot(B, obsB),
+        D.prove_snap_equal(eng, snap(A, obsA), snap(B, obsB),
                            "C09/twin-with-rejected-requests-diverges", f"after {spec.history}:")
 
 
